@@ -57,6 +57,19 @@ def limited(f, secs=2.0):
         signal.setitimer(signal.ITIMER_REAL, 0)
 
 
+def make_mv(d):
+    """{'fmt': struct format, 'hex': the underlying bytes, 'shape': [..] or None, 'step': n} -> memoryview
+    (the same construction as harness/props/C06.py:mv_bytes, which gives the bytes it stands for)"""
+    m = memoryview(bytes.fromhex(d['hex']))
+    if d.get('shape'):
+        m = m.cast(d['fmt'], shape=d['shape'])
+    elif d['fmt'] != 'B':
+        m = m.cast(d['fmt'])
+    if d.get('step', 1) != 1:
+        m = m[::d['step']]
+    return m
+
+
 def dec(t):
     if t is None or isinstance(t, bool):
         return t
@@ -78,6 +91,8 @@ def dec(t):
         return bytearray(bytes.fromhex(t['ya']))
     if 'ym' in t:
         return memoryview(bytes.fromhex(t['ym']))
+    if 'mv' in t:                   # a memoryview whose items may be wider than a byte, multi-dimensional or strided
+        return make_mv(t['mv'])
     if 'o' in t:
         return {'dict': {'a': 1}, 'tuple3': (1, 2, 3), 'tuple0': (), 'complex': 1j, 'set': {1}, 'object': object(),
                 'emptydict': {}, 'emptyset': set(), 'bytearray0': bytearray()}[t['o']]
